@@ -364,6 +364,27 @@ def check_presets(prog: Program, res: Result, sch: Schema) -> None:
                     ok = b.targets[0].attr == fam and src.startswith(f"{fam}_config_mapper[")
                     res.ob("C20-preset", ok, fi.qualname, f"'{fam}*' -> backbone_config.{b.targets[0].attr} from {src[:30]}",
                            f"names starting with '{fam}' set `.{b.targets[0].attr}` from `{short(b.value, 40)}`", f"{fi.module.relpath}:{b.lineno}")
+    # the preset object must be assignable to the declared type of the field it is stored in: OmegaConf.structured()
+    # (TrainingJobConfig.to_sleap_nn_cfg) rejects a value whose class is not the declared class or a subclass of it
+    fam_of = {"unet_config_mapper": "unet", "convnext_config_mapper": "convnext", "swint_config_mapper": "swint"}
+    holder = sch.classes.get("BackboneConfig", {})
+    for mname, d in mappers.items():
+        fam = fam_of.get(mname)
+        if fam is None or fam not in holder:
+            continue
+        declared = holder[fam].types
+        for k, v in zip(d.keys, d.values):
+            if not (isinstance(k, ast.Constant) and isinstance(v, ast.Call)):
+                continue
+            cls = norm(v.func).split(".")[-1]
+            ci = sch.class_info.get(cls)
+            anc = [c.name for c in prog.mro(ci)] if ci is not None else []
+            ok = any(a in declared for a in anc)
+            res.ob("C20-assign", ok, fi.qualname, f"preset '{k.value}': {cls} is assignable to BackboneConfig.{fam}: {declared}",
+                   f"preset '{k.value}' stores a {cls} in BackboneConfig.{fam}, declared Optional[{', '.join(declared)}]; {cls} is not that class nor a subclass of it, "
+                   "so converting the built configuration to its structured form (to_sleap_nn_cfg) raises ValidationError: the builder's result is unusable for this preset",
+                   f"{fi.module.relpath}:{k.lineno}", sample={"class": cls, "mro": anc, "declared": declared})
+    res.floor("C20-assign", 12)
     res.floor("C20-preset", 15)
     # dict / string keys: '<key>' in cfg  /  cfg == '<key>'  ->  .<key> = <declared class>(**cfg['<key>'] ...)
     for fname, holder in (("get_backbone_config", "BackboneConfig"), ("get_head_configs", "HeadConfig")):
@@ -689,6 +710,8 @@ VARIANTS = [
             "            elif g == \"scale\":\n                aug_config.geometric.scale = (0.9, 1.1)\n                aug_config.geometric.affine_p = 1.0\n                aug_config.geometric.rotation = 0\n", "C20-comm"),
     Variant("comm-not-enabled", F, "                aug_config.geometric.affine_p = 1.0\n                aug_config.geometric.rotation = 15.0\n", "                aug_config.geometric.affine_p = 1.0\n", "C20-comm"),
     Variant("comm-wrong-field", F, "            elif i == \"contrast\":\n                aug_config.intensity.contrast_p = 1.0", "            elif i == \"contrast\":\n                aug_config.intensity.brightness_p = 1.0", "C20-comm"),
+    Variant("assign-not-subclass", "sleap_nn/config/model_config.py", "class ConvNextSmallConfig(ConvNextConfig):", "class ConvNextSmallConfig:", "C20-assign"),
+    Variant("assign-wrong-family", "sleap_nn/config/model_config.py", "class SwinTBaseConfig(SwinTConfig):", "class SwinTBaseConfig(ConvNextConfig):", "C20-assign"),
     Variant("preset-wrong-class", F, "        \"convnext_small\": ConvNextSmallConfig(),", "        \"convnext_small\": ConvNextBaseConfig(),", "C20-preset"),
     Variant("key-wrong-attr", F, "        elif head_cfg == \"centroid\":\n            head_configs.centroid = CentroidConfig()", "        elif head_cfg == \"centroid\":\n            head_configs.centered_instance = CentroidConfig()", "C20-key"),
     Variant("key-wrong-subdict", F, "                pafs=PAFConfig(**head_cfg[\"bottomup\"][\"pafs\"]),", "                pafs=PAFConfig(**head_cfg[\"bottomup\"][\"confmaps\"]),", "C20-key"),
